@@ -8,7 +8,7 @@
    itself for every schedule: whatever a call returns as coming from the peer (nil error, or an
    error built from a response) is the payload of a response frame that carried that call's own
    id, whatever else is in flight and in whatever order frames arrive. *)
-From Verif Require Import Base Link Sys LinkInvR.
+From Verif Require Import Base Link Sys LinkInvR LinkInvQ.
 
 Theorem each_call_own_result :
   forall (h : N -> N -> N) s id v,
@@ -46,3 +46,24 @@ Theorem response_routing_reordered :
             In (EvReturn 2 zero (Some (EApp 5%N))) (evs s).
 Proof. exact response_routing_example. Qed.
 Print Assumptions response_routing_reordered.
+
+(* callee half, goroutine level, every schedule: each invocation is for a request the peer sent and
+   with that request's function and argument; no request is invoked or answered twice; a response
+   written for request n is the result of the invocation made for request n *)
+Theorem one_invocation_per_request_own_arguments :
+  forall calls cs s,
+    lrun fixed calls linit cs = Some s ->
+    (forall n f arg, In (EvInvoked n f arg) (evs s) -> In (f, arg) (req_of cs)) /\
+    NoDup (inv_ids (evs s)) /\
+    (forall n v e, In (EvResWritten n v e) (evs s) ->
+       exists f arg, In (EvInvoked n f arg) (evs s) /\ handler_result f arg = Some (v, e)) /\
+    NoDup (res_ids (evs s)).
+Proof. exact callee_side_lemma. Qed.
+Print Assumptions one_invocation_per_request_own_arguments.
+
+Theorem callee_side_reordered :
+  exists s, lrun fixed [] linit cq_schedule = Some s /\
+            In (EvResWritten 0 7%N None) (evs s) /\ In (EvResWritten 1 8%N (Some 3%N)) (evs s) /\
+            In (EvResWritten 2 zero None) (evs s) /\ inv_ids (evs s) = [0; 2; 1].
+Proof. exact callee_side_example. Qed.
+Print Assumptions callee_side_reordered.
